@@ -17,6 +17,7 @@ structure Closed (P : St → Prop) : Prop where
   addHolder : ∀ st sid k, P st → (∃ s ∈ st.sessions, s.sid = sid) → P (st.addHolder sid k)
   dropHolder : ∀ st x, P st → P (st.dropHolder x)
   reclaim : ∀ st sid, P st → P (st.reclaim sid)
+  clientFree : ∀ st sid, P st → P (st.clientFree sid)
   addPartial : ∀ st sid, P st → (∃ s ∈ st.sessions, s.sid = sid) → P (st.addPartial sid)
   dropPartial : ∀ st sid, P st → P (st.dropPartial sid)
   promote : ∀ st x due, P st → (∃ s ∈ st.sessions, s.sid = x.2) → P (st.promote x due)
@@ -351,6 +352,28 @@ theorem Closed.step {P : St → Prop} (c : Closed P) {st : St} (h : P st) (e : E
       split
       · exact h
       · exact c.disconnectSess h _
+    | callHome p =>
+      dsimp only
+      split
+      · exact h
+      · rename_i s hs
+        split
+        · exact h
+        · obtain ⟨hm, _⟩ := lookup_some hs
+          dsimp only
+          apply c.addHolder
+          · refine c.benign _ _ _ h ?_
+            intro s; exact ⟨rfl, rfl, rfl⟩
+          · exact live_updSess s.sid _ (fun _ => rfl) ⟨s, hm, rfl⟩
+    | endCallHome p =>
+      dsimp only
+      split
+      · exact h
+      · split
+        · exact h
+        · split
+          · exact h
+          · exact c.clientFree _ _ (c.dropHolder _ _ h)
     | connect p =>
       dsimp only
       split
@@ -460,8 +483,9 @@ def St.sids (st : St) : List Nat := st.sessions.map (·.sid)
 structure SInv (st : St) : Prop where
   pw : st.sessions.Pairwise (fun a b => a.peer ≠ b.peer ∧ a.sid ≠ b.sid)
   ep : ∀ s ∈ st.sessions, (s.peer.lport, s.peer.proto) ∈ st.eps
-  evLive : ∀ x ∈ st.sids, st.events.count (.new x) = 1 ∧ st.events.count (.del x) = 0
-  evDead : ∀ x, x ∉ st.sids → st.events.count (.del x) = st.events.count (.new x) ∧ st.events.count (.new x) ≤ 1
+  evLive : ∀ x ∈ st.sids, st.events.count (.new x) = 1 ∧ st.events.count (.del x) = 0 ∧ st.events.count (.handed x) = 0
+  evDead : ∀ x, x ∉ st.sids →
+    st.events.count (.del x) + st.events.count (.handed x) = st.events.count (.new x) ∧ st.events.count (.new x) ≤ 1
   evFresh : ∀ x, 0 < st.events.count (.new x) → x < st.next
 
 def ShapeBenign (g : Sess → Sess) : Prop := ∀ s, (g s).sid = s.sid ∧ (g s).peer = s.peer
@@ -535,22 +559,64 @@ theorem SInv.reclaim {st : St} (h : SInv st) (sid : Nat) : SInv (st.reclaim sid)
       · intro t ht; exact h.ep t ((hmem t).mp ht).1
       · intro x hx
         obtain ⟨hx1, hx2⟩ := (hsids x).mp hx
-        show List.count _ (st.events ++ [SEvent.del sid]) = 1 ∧ List.count _ (st.events ++ [SEvent.del sid]) = 0
-        rw [count_snoc_ne _ (by simp), count_snoc_ne _ (by simp; exact fun e => hx2 e.symm)]
+        show List.count _ (st.events ++ [SEvent.del sid]) = 1 ∧ List.count _ (st.events ++ [SEvent.del sid]) = 0 ∧
+          List.count _ (st.events ++ [SEvent.del sid]) = 0
+        rw [count_snoc_ne _ (by simp), count_snoc_ne _ (by simp; exact fun e => hx2 e.symm), count_snoc_ne _ (by simp)]
         exact h.evLive x hx1
       · intro x hx
-        show List.count _ (st.events ++ [SEvent.del sid]) = List.count _ (st.events ++ [SEvent.del sid]) ∧
-          List.count _ (st.events ++ [SEvent.del sid]) ≤ 1
+        show List.count (SEvent.del x) (st.events ++ [SEvent.del sid]) + List.count (SEvent.handed x) (st.events ++ [SEvent.del sid]) =
+          List.count (SEvent.new x) (st.events ++ [SEvent.del sid]) ∧ List.count (SEvent.new x) (st.events ++ [SEvent.del sid]) ≤ 1
         by_cases e : x = sid
         · subst e
           have := h.evLive x (by unfold St.sids; exact List.mem_map.mpr ⟨s, hm, hsid⟩)
-          rw [count_snoc_self, count_snoc_ne _ (by simp)]
+          rw [count_snoc_self, count_snoc_ne _ (by simp), count_snoc_ne _ (by simp)]
           omega
         · have hx' : x ∉ st.sids := fun hin => hx ((hsids x).mpr ⟨hin, e⟩)
-          rw [count_snoc_ne _ (by simp; exact fun e' => e e'.symm), count_snoc_ne _ (by simp)]
+          rw [count_snoc_ne _ (by simp; exact fun e' => e e'.symm), count_snoc_ne _ (by simp), count_snoc_ne _ (by simp)]
           exact h.evDead x hx'
       · intro x hx
         have hx' : 0 < List.count (SEvent.new x) (st.events ++ [SEvent.del sid]) := hx
+        rw [count_snoc_ne _ (by simp)] at hx'
+        exact h.evFresh x hx'
+
+theorem SInv.clientFree {st : St} (h : SInv st) (sid : Nat) : SInv (st.clientFree sid) := by
+  unfold St.clientFree
+  split
+  · exact h
+  · rename_i s hs
+    obtain ⟨hm, hsid⟩ := getSess_some hs
+    split
+    · exact h
+    · have hmem : ∀ t, t ∈ st.sessions.filter (fun t => t.sid ≠ sid) ↔ t ∈ st.sessions ∧ t.sid ≠ sid := by
+        intro t; simp [List.mem_filter]
+      have hsids : ∀ x, x ∈ (st.sessions.filter (fun t => t.sid ≠ sid)).map (·.sid) ↔ x ∈ st.sids ∧ x ≠ sid := by
+        intro x
+        simp only [St.sids, List.mem_map, hmem]
+        constructor
+        · rintro ⟨t, ⟨ht, hne⟩, rfl⟩; exact ⟨⟨t, ht, rfl⟩, hne⟩
+        · rintro ⟨⟨t, ht, rfl⟩, hne⟩; exact ⟨t, ⟨ht, hne⟩, rfl⟩
+      constructor
+      · exact h.pw.filter _
+      · intro t ht; exact h.ep t ((hmem t).mp ht).1
+      · intro x hx
+        obtain ⟨hx1, hx2⟩ := (hsids x).mp hx
+        show List.count _ (st.events ++ [SEvent.handed sid]) = 1 ∧ List.count _ (st.events ++ [SEvent.handed sid]) = 0 ∧
+          List.count _ (st.events ++ [SEvent.handed sid]) = 0
+        rw [count_snoc_ne _ (by simp), count_snoc_ne _ (by simp), count_snoc_ne _ (by simp; exact fun e => hx2 e.symm)]
+        exact h.evLive x hx1
+      · intro x hx
+        show List.count (SEvent.del x) (st.events ++ [SEvent.handed sid]) + List.count (SEvent.handed x) (st.events ++ [SEvent.handed sid]) =
+          List.count (SEvent.new x) (st.events ++ [SEvent.handed sid]) ∧ List.count (SEvent.new x) (st.events ++ [SEvent.handed sid]) ≤ 1
+        by_cases e : x = sid
+        · subst e
+          have := h.evLive x (by unfold St.sids; exact List.mem_map.mpr ⟨s, hm, hsid⟩)
+          rw [count_snoc_ne _ (by simp), count_snoc_self, count_snoc_ne _ (by simp)]
+          omega
+        · have hx' : x ∉ st.sids := fun hin => hx ((hsids x).mpr ⟨hin, e⟩)
+          rw [count_snoc_ne _ (by simp), count_snoc_ne _ (by simp; exact fun e' => e e'.symm), count_snoc_ne _ (by simp)]
+          exact h.evDead x hx'
+      · intro x hx
+        have hx' : 0 < List.count (SEvent.new x) (st.events ++ [SEvent.handed sid]) := hx
         rw [count_snoc_ne _ (by simp)] at hx'
         exact h.evFresh x hx'
 
@@ -582,34 +648,35 @@ theorem SInv.newSession {st : St} (h : SInv st) (hH : HInv st) (p : Peer) (hl : 
     show a.sid ≠ st.next
     omega
   · intro t ht
-    have ht' : t ∈ st.sessions ++ [⟨st.next, st.nsess, p, 0, st.now, 0, 0, 0, false, 0⟩] := ht
+    have ht' : t ∈ st.sessions ++ [⟨st.next, st.nsess, p, 0, st.now, 0, 0, 0, false, 0, false⟩] := ht
     rcases List.mem_append.mp ht' with h1 | h1
     · exact h.ep t h1
     · simp only [List.mem_singleton] at h1; subst h1; exact hp
   · intro x hx
-    have hx' : x ∈ (st.sessions ++ [(⟨st.next, st.nsess, p, 0, st.now, 0, 0, 0, false, 0⟩ : Sess)]).map (fun s : Sess => s.sid) := hx
-    show List.count _ (st.events ++ [SEvent.new st.next]) = 1 ∧ List.count _ (st.events ++ [SEvent.new st.next]) = 0
+    have hx' : x ∈ (st.sessions ++ [(⟨st.next, st.nsess, p, 0, st.now, 0, 0, 0, false, 0, false⟩ : Sess)]).map (fun s : Sess => s.sid) := hx
+    show List.count _ (st.events ++ [SEvent.new st.next]) = 1 ∧ List.count _ (st.events ++ [SEvent.new st.next]) = 0 ∧
+      List.count _ (st.events ++ [SEvent.new st.next]) = 0
     rw [List.map_append, List.mem_append] at hx'
     rcases hx' with h1 | h1
     · have hne : x ≠ st.next := fun e => hfresh (e ▸ h1)
-      rw [count_snoc_ne _ (by simp; exact fun e => hne e.symm), count_snoc_ne _ (by simp)]
+      rw [count_snoc_ne _ (by simp; exact fun e => hne e.symm), count_snoc_ne _ (by simp), count_snoc_ne _ (by simp)]
       exact h.evLive x h1
     · simp at h1; subst h1
-      rw [count_snoc_self, count_snoc_ne _ (by simp), hnew0]
+      rw [count_snoc_self, count_snoc_ne _ (by simp), count_snoc_ne _ (by simp), hnew0]
       have := h.evDead st.next hfresh
       omega
   · intro x hx
     have hx1 : x ∉ st.sids ∧ x ≠ st.next := by
       constructor
       · intro hin; apply hx
-        show x ∈ (st.sessions ++ [(⟨st.next, st.nsess, p, 0, st.now, 0, 0, 0, false, 0⟩ : Sess)]).map (fun s : Sess => s.sid)
+        show x ∈ (st.sessions ++ [(⟨st.next, st.nsess, p, 0, st.now, 0, 0, 0, false, 0, false⟩ : Sess)]).map (fun s : Sess => s.sid)
         rw [List.map_append]; exact List.mem_append.mpr (Or.inl hin)
       · intro e; apply hx
-        show x ∈ (st.sessions ++ [(⟨st.next, st.nsess, p, 0, st.now, 0, 0, 0, false, 0⟩ : Sess)]).map (fun s : Sess => s.sid)
+        show x ∈ (st.sessions ++ [(⟨st.next, st.nsess, p, 0, st.now, 0, 0, 0, false, 0, false⟩ : Sess)]).map (fun s : Sess => s.sid)
         rw [List.map_append]; apply List.mem_append.mpr; right; simp [e]
-    show List.count _ (st.events ++ [SEvent.new st.next]) = List.count _ (st.events ++ [SEvent.new st.next]) ∧
-      List.count _ (st.events ++ [SEvent.new st.next]) ≤ 1
-    rw [count_snoc_ne _ (by simp), count_snoc_ne _ (by simp; exact fun e => hx1.2 e.symm)]
+    show List.count (SEvent.del x) (st.events ++ [SEvent.new st.next]) + List.count (SEvent.handed x) (st.events ++ [SEvent.new st.next]) =
+      List.count (SEvent.new x) (st.events ++ [SEvent.new st.next]) ∧ List.count (SEvent.new x) (st.events ++ [SEvent.new st.next]) ≤ 1
+    rw [count_snoc_ne _ (by simp), count_snoc_ne _ (by simp), count_snoc_ne _ (by simp; exact fun e => hx1.2 e.symm)]
     exact h.evDead x hx1.1
   · intro x hx
     have hx' : 0 < List.count (SEvent.new x) (st.events ++ [SEvent.new st.next]) := hx
@@ -868,6 +935,33 @@ theorem LInv.reclaim {st : St} (h : LInv st) (hS : SInv st) (sid : Nat) : LInv (
         · have : ¬ sid = i := fun e' => e e'.symm
           simp [e, this]; rfl
 
+theorem LInv.clientFree {st : St} (h : LInv st) (hS : SInv st) (sid : Nat) : LInv (st.clientFree sid) := by
+  unfold St.clientFree
+  split
+  · exact h
+  · rename_i s hs
+    obtain ⟨hm, hsid⟩ := getSess_some hs
+    split
+    · exact h
+    · have h1 := count_sid_one st.sessions hS.pw s hm
+      rw [hsid] at h1
+      have hd := LInv.dropPartial h sid
+      refine LInv.free (st := st.dropPartial sid) hd sid ?_ rfl ?_
+      · rw [objects_count]
+        have e1 : (st.dropPartial sid).sids = st.sids := rfl
+        rw [e1]; unfold St.sids; omega
+      · intro i
+        rw [objects_count, objects_count]
+        show ((st.sessions.filter (fun t => t.sid ≠ sid)).map (·.sid)).count i + (st.dropPartial sid).allocHids.count i +
+          (st.dropPartial sid).ctxObjs.count i + (st.dropPartial sid).partialIds.count i = _
+        rw [count_sids_filter]
+        have e1 : (st.dropPartial sid).sids = st.sids := rfl
+        rw [e1]
+        by_cases e : i = sid
+        · subst e; simp; unfold St.sids; omega
+        · have : ¬ sid = i := fun e' => e e'.symm
+          simp [e, this]; rfl
+
 theorem LInv.newSession {st : St} (h : LInv st) (p : Peer) : LInv (st.newSession p) := by
   refine LInv.alloc (st := st) h st.next rfl ?_
   intro i
@@ -942,6 +1036,23 @@ theorem PInv.addPartial {st : St} (h : PInv st) (sid : Nat) (hl : ∃ s ∈ st.s
 
 theorem PInv.reclaim {st : St} (h : PInv st) (sid : Nat) : PInv (st.reclaim sid) := by
   unfold St.reclaim
+  split
+  · exact h
+  · split
+    · exact h
+    · intro x hx
+      have hx' : x ∈ st.partials.filter (fun x => x.2 != sid) := hx
+      obtain ⟨hx1, hx2⟩ := List.mem_filter.mp hx'
+      obtain ⟨s, hs, e⟩ := h x hx1
+      refine ⟨s, ?_, e⟩
+      show s ∈ st.sessions.filter (fun t => t.sid ≠ sid)
+      apply List.mem_filter.mpr
+      refine ⟨hs, ?_⟩
+      have : x.2 ≠ sid := by simpa using hx2
+      simp [e]; exact this
+
+theorem PInv.clientFree {st : St} (h : PInv st) (sid : Nat) : PInv (st.clientFree sid) := by
+  unfold St.clientFree
   split
   · exact h
   · split
@@ -1067,6 +1178,7 @@ theorem Inv.closed : Closed Inv where
   addHolder st sid k h hl := ⟨h.H.addHolder sid k hl, h.S.addHolder sid k, h.L.addHolder sid k, h.P.addHolder sid k⟩
   dropHolder st x h := ⟨h.H.dropHolder x, h.S.dropHolder x, h.L.dropHolder x, h.P.dropHolder x⟩
   reclaim st sid h := ⟨h.H.reclaim sid, h.S.reclaim sid, h.L.reclaim h.S sid, h.P.reclaim sid⟩
+  clientFree st sid h := ⟨h.H.clientFree sid, h.S.clientFree sid, h.L.clientFree h.S sid, h.P.clientFree sid⟩
   addPartial st sid h hl :=
     ⟨h.H.addPartial sid, h.S.same rfl rfl rfl (Nat.le_succ _), h.L.addPartial sid, h.P.addPartial sid hl⟩
   dropPartial st sid h :=
